@@ -16,27 +16,14 @@ def fpBuiltin : List Nat := [
   0x047d42047c91a3ccd43827d008a4442c  /- value/display.rs::fmt -/]
 
 def fpContext : List Nat := [
-  0x1d52eb861ee582c2264e2c1a67300517  /- context/mod.rs::set_value#0 -/,
-  0x5a734d34db6d6b9105e8a4bc59bc3f4b  /- context/mod.rs::set_value#1 -/,
-  0xd95c58508c8d172ea3a487973c2031ca  /- context/mod.rs::set_function#0 -/,
-  0xf062d43f9b3872f0fb76725ea472336e  /- context/mod.rs::set_function#1 -/,
-  0x39e017c974dc06fe1db79b59bf9b7bb8  /- context/mod.rs::iter_variables#0 -/,
-  0x39e017c974dc06fe1db79b59bf9b7bb8  /- context/mod.rs::iter_variables#1 -/,
-  0x0bc3fb0a6185a855a07eb1cb8cc65a34  /- context/mod.rs::iter_variables#2 -/,
-  0xa26d6d2e3739d299faf46414d98d1d83  /- context/mod.rs::iter_variable_names#0 -/,
-  0xa26d6d2e3739d299faf46414d98d1d83  /- context/mod.rs::iter_variable_names#1 -/,
-  0xf96108c0a18cd573161fcb30c72d1b26  /- context/mod.rs::iter_variable_names#2 -/,
   0xe2990efed42fa25eaa4a51fb37e48b15  /- context/mod.rs::default#0 -/,
-  0xe2990efed42fa25eaa4a51fb37e48b15  /- context/mod.rs::default#1 -/,
-  0xc2a225f7c4ad1718b8af5b4bd4f4a3fb  /- context/mod.rs::default#2 -/,
-  0xfd1a4385cc7a9b2b21c12c6150876a37  /- context/mod.rs::new -/]
+  0xe2990efed42fa25eaa4a51fb37e48b15  /- context/mod.rs::default#1 -/]
 
 def fpEval : List Nat := [
   0xc03645396ca50f95f9962a0288f9aa5f  /- operator/mod.rs::value -/,
   0x4447ac3d4754a7a812b69ba926402aaa  /- operator/mod.rs::variable_identifier_write -/,
   0xa9b85c48eee00af48c70622cd9846b3b  /- operator/mod.rs::variable_identifier_read -/,
   0x7a4dc35a1f801744072cdad7ca8e33d1  /- operator/mod.rs::function_identifier -/,
-  0x3923cc2ccc0a7138f962e9f82440cff1  /- error/mod.rs::expected_type -/,
   0x7c39b0e7bee4514c8d602e1c90d47c07  /- value/mod.rs::is_string -/,
   0x80173e86a1a6339cad9f9f0801416ab8  /- value/mod.rs::is_int -/,
   0xf2dbfc474e616b9df2404b40b58982c7  /- value/mod.rs::is_float -/,
@@ -46,9 +33,6 @@ def fpEval : List Nat := [
   0x228612cc3b547cc595f37e5f8485b52b  /- value/mod.rs::is_empty -/,
   0xf47edf40b99a9ef7617a0172cef4bb28  /- value/mod.rs::as_ranged_len_tuple -/,
   0x345f8858262d4ca2ed1c786db039137e  /- value/mod.rs::str_from -/,
-  0xee0bc107f11c4e9c7c0b718e77563430  /- value/mod.rs::from_float -/,
-  0x79c2a6f327b48449fe2168081585e904  /- value/mod.rs::from_int -/,
-  0x7c08bf4a3bc687a893f2fae82f69d4b9  /- value/mod.rs::from#0 -/,
   0xba27f51ff26fe25534c525e4ae05334c  /- value/mod.rs::from#1 -/,
   0x38314c1d8f01103b308fdbc26cdf72b3  /- value/mod.rs::from#2 -/,
   0x0faf4a569ab731bdfd863a00e832005d  /- value/mod.rs::from#3 -/,
@@ -58,60 +42,11 @@ def fpEval : List Nat := [
   0xd046b91a4c216adbbde55407bf039867  /- value/mod.rs::try_from#1 -/,
   0x5f24f5d6631860e2c4a536825e9fae46  /- value/mod.rs::try_from#2 -/,
   0xfca3a095fe2813478196b39913586472  /- value/mod.rs::try_from#3 -/,
-  0xc6ef6e0222507a81d73067278ced4ad5  /- value/value_type.rs::from#0 -/,
-  0xcbc27e0cc58631b955beff1de18bf1df  /- value/value_type.rs::from#1 -/,
-  0xe07e8534b899c37e7c1873dee097d863  /- value/value_type.rs::from#2 -/,
   0xf572890976667b7dda75fe372ddbdb5b  /- function/mod.rs::call -/,
   0x2354ae232c6541939f0472061fcfa50b  /- function/mod.rs::new -/]
 
 def fpInterface : List Nat := [
-  0xb0b81de2d73e41ec15b77fc8678a8670  /- interface/mod.rs::eval -/,
-  0xbfc798a5401c4d4c3b605b4de503f053  /- interface/mod.rs::eval_with_context -/,
-  0x45284b9ede33c3fe68dd1624e8a6cc11  /- interface/mod.rs::eval_with_context_mut -/,
-  0xc4a2f82a957d51be927c377f87c17d04  /- interface/mod.rs::build_operator_tree -/,
-  0x9952bfeb6e63e69338a550518b27c429  /- interface/mod.rs::eval_string -/,
-  0x5eaf2ef8e482ef78a76adb240dd9b2e9  /- interface/mod.rs::eval_int -/,
-  0xa2029b1576e12e40e9fee95d96755eeb  /- interface/mod.rs::eval_float -/,
-  0x1c35634335c554a1594fc5319b60bc57  /- interface/mod.rs::eval_number -/,
-  0xcabe9e8851bec865ac04879010a1980b  /- interface/mod.rs::eval_boolean -/,
-  0x305f06d68650c70b692f3872ddee7057  /- interface/mod.rs::eval_tuple -/,
-  0xf8a41df9a1c73c0d57a5a5674f1d8832  /- interface/mod.rs::eval_empty -/,
-  0x392f9b6aec33a54b89027063fae02ba1  /- interface/mod.rs::eval_string_with_context -/,
-  0x2bef093e323ebd0456125800a2473157  /- interface/mod.rs::eval_int_with_context -/,
-  0x6730c699e92b29cf1682ab9b4a63d942  /- interface/mod.rs::eval_float_with_context -/,
-  0x087ec80c66bce23dbe883d1004e00a96  /- interface/mod.rs::eval_number_with_context -/,
-  0x6d698d187f31354b9961e912011e86cd  /- interface/mod.rs::eval_boolean_with_context -/,
-  0xdbb7ac1ef3faa248e4317faf84e22ed1  /- interface/mod.rs::eval_tuple_with_context -/,
-  0xb77f1111211fd55a9c5af0d299e75fd8  /- interface/mod.rs::eval_empty_with_context -/,
-  0x690f4ca874422b0aa8dc81d4921b856f  /- interface/mod.rs::eval_string_with_context_mut -/,
-  0x939838ca0074550838f7b608a6a34186  /- interface/mod.rs::eval_int_with_context_mut -/,
-  0x47e77a4ed757a86e61307b7f82de056b  /- interface/mod.rs::eval_float_with_context_mut -/,
-  0xcad0eebefe5aeab1ff30f3aef396b699  /- interface/mod.rs::eval_number_with_context_mut -/,
-  0xe24daf3c54d5c1938f023b9d867f867b  /- interface/mod.rs::eval_boolean_with_context_mut -/,
-  0x25b396cafc2e935eb02d937f686be0b8  /- interface/mod.rs::eval_tuple_with_context_mut -/,
-  0xde19470cde8142b85bdae5a867e8e4ae  /- interface/mod.rs::eval_empty_with_context_mut -/,
-  0xaf6fc7b422e691502d0c8b755a0ff6f5  /- tree/mod.rs::eval -/,
-  0xc39bc089ce8c55bc62028e356874833a  /- tree/mod.rs::eval_string -/,
-  0x6bb38d2861a933529387414b1131b64a  /- tree/mod.rs::eval_string_with_context -/,
-  0x10a6ad189bbb4b4ffb32e95db0b169c0  /- tree/mod.rs::eval_string_with_context_mut -/,
-  0x652a7f5b20f8001fba1b1a79f0977c2a  /- tree/mod.rs::eval_int -/,
-  0x8b24fdde0a42bb81806d331cedac3bf1  /- tree/mod.rs::eval_int_with_context -/,
-  0x6d49270354765c1b021a83df33d428d9  /- tree/mod.rs::eval_int_with_context_mut -/,
-  0xdc563a39b7067d9e3ea8c738b0f4405d  /- tree/mod.rs::eval_float -/,
-  0x0927a20251b2fb3814ccec5016c98c69  /- tree/mod.rs::eval_float_with_context -/,
-  0x71daed9e0c5498c99074aa0be18fd732  /- tree/mod.rs::eval_float_with_context_mut -/,
-  0xcf103dfc369fc42b668d7f36a2656365  /- tree/mod.rs::eval_number -/,
-  0x68781acf4522eecee7574a8c42481a3d  /- tree/mod.rs::eval_number_with_context -/,
-  0xd80a38cb219ebf640ae0068944adad3c  /- tree/mod.rs::eval_number_with_context_mut -/,
-  0xa3bbc34b78ccda602c826d2d9ffeb205  /- tree/mod.rs::eval_boolean -/,
-  0x1fe28d585b05d5ab4cf6797c186085b0  /- tree/mod.rs::eval_boolean_with_context -/,
-  0x547dbe6d885e8eded84552b5ee55b654  /- tree/mod.rs::eval_boolean_with_context_mut -/,
-  0xfe286de07a586aa57108671424f61705  /- tree/mod.rs::eval_tuple -/,
-  0xaf55edf99913827e055ef8531c5a2395  /- tree/mod.rs::eval_tuple_with_context -/,
-  0x84e3e36c519607d54d38f75e2a799654  /- tree/mod.rs::eval_tuple_with_context_mut -/,
-  0x50283745df50b582c7cabe911739a73a  /- tree/mod.rs::eval_empty -/,
-  0x7e6dfeb3f2f5577ac84619dc5dca1814  /- tree/mod.rs::eval_empty_with_context -/,
-  0x92bb9d07048184c444cf1d7f392228e8  /- tree/mod.rs::eval_empty_with_context_mut -/]
+]
 
 def fpIter : List Nat := [
   0xffed37c0e78e449e9923828cef296c36  /- tree/iter.rs::new#0 -/,
@@ -147,57 +82,9 @@ def fpLexer : List Nat := [
   0xde8b112f5b95f9083ac0ea31a1a82673  /- token/mod.rs::parse_dec_or_hex -/]
 
 def fpNumeric : List Nat := [
-  0x4ae2b29292aa51351525f4a38380dcbe  /- value/numeric_types/default_numeric_types.rs::int_as_float -/,
-  0xf5bac18518f361bde24d43490fb8199a  /- value/numeric_types/default_numeric_types.rs::float_as_int -/,
-  0xd8a0e7e525935c0d6cebaee32e9d9b0f  /- value/numeric_types/default_numeric_types.rs::from_usize -/,
-  0x130f0d52978eb6d2c0364bade1836770  /- value/numeric_types/default_numeric_types.rs::into_usize -/,
   0x9af9f29b0865afba015687c19310bbd1  /- value/numeric_types/default_numeric_types.rs::from_hex_str -/,
-  0x537c0ad6df8bece7a7c1ee48d80669a5  /- value/numeric_types/default_numeric_types.rs::checked_add -/,
-  0x5493cee457806bedaa06e431a5dd90bc  /- value/numeric_types/default_numeric_types.rs::checked_sub -/,
-  0x404f580ac33f64339daa0196d2850d6e  /- value/numeric_types/default_numeric_types.rs::checked_neg -/,
-  0xab59cc44bd87d06e6f83525d0944c074  /- value/numeric_types/default_numeric_types.rs::checked_mul -/,
-  0x52f84eec74bff2c44c669edcb1eaa315  /- value/numeric_types/default_numeric_types.rs::checked_div -/,
-  0x81561067eb126093ec91c05dceb62438  /- value/numeric_types/default_numeric_types.rs::checked_rem -/,
-  0xd907a734dc5be82b20c40b6353efe78e  /- value/numeric_types/default_numeric_types.rs::abs#0 -/,
-  0x523a33a9e1838f4b300e05df2a72ee0c  /- value/numeric_types/default_numeric_types.rs::abs#1 -/,
-  0xc2d7d8d5027e63597f21540cf2fe8a81  /- value/numeric_types/default_numeric_types.rs::bitand -/,
-  0x094c5e5cba8351da267a9322f088406d  /- value/numeric_types/default_numeric_types.rs::bitor -/,
-  0x2cc3a1578172cc11aa6771360184522a  /- value/numeric_types/default_numeric_types.rs::bitxor -/,
-  0x423638754d65022d9d21261aaa34e257  /- value/numeric_types/default_numeric_types.rs::bitnot -/,
   0x7d0b0ebbaf5e387a8332ffa5934ee25d  /- value/numeric_types/default_numeric_types.rs::bit_shift_left -/,
   0xf76abaf7d3f2158b11e5579929065c82  /- value/numeric_types/default_numeric_types.rs::bit_shift_right -/,
-  0x823b4de5af0a5cb766b9003ec9d791fd  /- value/numeric_types/default_numeric_types.rs::pow -/,
-  0xa80a31faf9ca7e15f18cf9f366536001  /- value/numeric_types/default_numeric_types.rs::ln -/,
-  0x2a1a2c5998ba7b132e744dc59d2703ce  /- value/numeric_types/default_numeric_types.rs::log -/,
-  0x7feec7d346f887e9accf6ea7dfd194e5  /- value/numeric_types/default_numeric_types.rs::log2 -/,
-  0x9a74501ee40773858efd8087aaa26628  /- value/numeric_types/default_numeric_types.rs::log10 -/,
-  0xaff29b4bc81bca7b36368defbe503aef  /- value/numeric_types/default_numeric_types.rs::exp -/,
-  0xd5feef362cafbd6489f8be110ce74aae  /- value/numeric_types/default_numeric_types.rs::exp2 -/,
-  0xdcbb7473e5c2474f0a32f63fc152d3e4  /- value/numeric_types/default_numeric_types.rs::cos -/,
-  0x10be4619bfa096bb26c85b6a7f9eeefe  /- value/numeric_types/default_numeric_types.rs::cosh -/,
-  0x903ca2f34ffe42a0a09b5d3a384df3a5  /- value/numeric_types/default_numeric_types.rs::acos -/,
-  0xdd3aa6a6cf96cd1a136b43d68c2c9f35  /- value/numeric_types/default_numeric_types.rs::acosh -/,
-  0x48f47914f9308cd704ac1b0dd5ed7702  /- value/numeric_types/default_numeric_types.rs::sin -/,
-  0x2b309a4f48c82fec151b476090a43b68  /- value/numeric_types/default_numeric_types.rs::sinh -/,
-  0xb024ca96c31e3a94520426a599b49a00  /- value/numeric_types/default_numeric_types.rs::asin -/,
-  0x888127248e1428cfac6192be7912fb26  /- value/numeric_types/default_numeric_types.rs::asinh -/,
-  0x491c35d22c08f907046d2f99fb404f2f  /- value/numeric_types/default_numeric_types.rs::tan -/,
-  0x4833f1c927c47892be07be063b915d23  /- value/numeric_types/default_numeric_types.rs::tanh -/,
-  0xb4f6daa7a73fbe0790a415d623f0b2a3  /- value/numeric_types/default_numeric_types.rs::atan -/,
-  0x4d88b712dbe6659911a624b081631ce6  /- value/numeric_types/default_numeric_types.rs::atanh -/,
-  0x75ebde1d3d1e2368f5c1bad422e6673b  /- value/numeric_types/default_numeric_types.rs::atan2 -/,
-  0x50092566b1e7db98db2f0c9b4e36c5e0  /- value/numeric_types/default_numeric_types.rs::sqrt -/,
-  0xf6c60c30f892b4280a8f07023063619b  /- value/numeric_types/default_numeric_types.rs::cbrt -/,
-  0xdbc8f3dcefc60caa4492e2931c3adc96  /- value/numeric_types/default_numeric_types.rs::hypot -/,
-  0xcc8a399b6acd3672ddbdc77e78b04f70  /- value/numeric_types/default_numeric_types.rs::floor -/,
-  0x7c664c303a7e817f7042b6df42b778ac  /- value/numeric_types/default_numeric_types.rs::round -/,
-  0x569d7e322b1540f438030f4934a1f413  /- value/numeric_types/default_numeric_types.rs::ceil -/,
-  0x1b274bfb8b02dd395cda2a99e59e73cf  /- value/numeric_types/default_numeric_types.rs::is_nan -/,
-  0x964d844a8ad7eadc5f302e0c17d38151  /- value/numeric_types/default_numeric_types.rs::is_finite -/,
-  0x0ed2eca2bbe72846457a98de38cbc2a6  /- value/numeric_types/default_numeric_types.rs::is_infinite -/,
-  0x382860d1f57f531845c4d375c01fb294  /- value/numeric_types/default_numeric_types.rs::is_normal -/,
-  0x7f4df4c53df958ada191d54f8ccad158  /- value/numeric_types/default_numeric_types.rs::min -/,
-  0xd339b46d0026548b3c61cf43b5f6bb09  /- value/numeric_types/default_numeric_types.rs::max -/,
   0xe9052c5407c27fb28bf3688a9d2b386f  /- value/numeric_types/default_numeric_types.rs::random -/]
 
 def fpSerde : List Nat := [
